@@ -93,7 +93,9 @@ type faulty struct {
 	mu        sync.Mutex
 	failWrite string // "" | "before" | "midway"
 	writes    int
-	down      bool // the service is unreachable
+	down      bool     // the service is unreachable
+	ackLag    ltx.TXID // the service confirms this much less than it has accepted
+	lastAck   ltx.TXID // the last high-water mark it returned
 }
 
 func (f *faulty) URL() string { return f.inner.URL() }
@@ -142,7 +144,18 @@ func (f *faulty) WriteTx(ctx context.Context, name string, r io.Reader) (ltx.TXI
 		}
 		return 0, err
 	}
-	return f.inner.WriteTx(ctx, name, r)
+	hwm, err := f.inner.WriteTx(ctx, name, r)
+	f.mu.Lock()
+	if err == nil {
+		if f.ackLag > 0 && hwm > f.ackLag {
+			hwm -= f.ackLag
+		} else if f.ackLag > 0 {
+			hwm = 0
+		}
+		f.lastAck = hwm
+	}
+	f.mu.Unlock()
+	return hwm, err
 }
 
 // ---------- environment ----------
@@ -285,7 +298,7 @@ func (e *env) syncOnce(p *primary, cf *common.CaseFile, scen, what string, histo
 		}
 	}
 	p.fl.mu.Lock()
-	injected := p.fl.failWrite != ""
+	injected := p.fl.failWrite != "" || p.fl.ackLag > 0
 	p.fl.mu.Unlock()
 	err := p.node.Store.SyncBackup(bg)
 	c.Evaluations++
@@ -317,6 +330,12 @@ func (e *env) syncOnce(p *primary, cf *common.CaseFile, scen, what string, histo
 	}
 	if spos != (posT{}) && spos2 != spos && !(spos2.txid > spos.txid) {
 		c.Violate(key+":overwritten", fmt.Sprintf("%s moved the service from (%d,%016x) to (%d,%016x): its data was overwritten", what, spos.txid, spos.chk, spos2.txid, spos2.chk), rep)
+	}
+	p.fl.mu.Lock()
+	lag, ack := p.fl.ackLag, uint64(p.fl.lastAck)
+	p.fl.mu.Unlock()
+	if lag > 0 && spos2 != spos && hwm2 > ack {
+		c.Violate(key+":hwm-unconfirmed", fmt.Sprintf("after %s the service confirmed transactions up to %d (it holds %d); the primary publishes high-water mark %d", what, ack, spos2.txid, hwm2), rep)
 	}
 	if hwm2 > spos2.txid {
 		c.Violate(key+":hwm", fmt.Sprintf("after %s the published high-water mark %d exceeds the service's position %d", what, hwm2, spos2.txid), rep)
@@ -553,6 +572,63 @@ func scenario(c *common.Ctx, cf *common.CaseFile, r *common.Rand, kind, scen str
 			}
 			cfs.Add(fmt.Sprintf("((%d,%d), (%d,%d,%d,%d), %s)", before.txid, before.chk, o.min, o.max, o.pre, next.Checksum(), common.CoqNList([]uint64{acc, after.txid, after.chk})), rep)
 		}
+	case "wal-restore":
+		// a WAL-mode primary with frames not yet checkpointed has to adopt the service's copy
+		if err := commitNoting(p1, 4); err != nil {
+			return err
+		}
+		e.syncOnce(p1, cf, scen, "first primary syncs", history)
+		p2, err := e.newPrimary(filepath.Join(dir, "p2"))
+		if err != nil {
+			return err
+		}
+		defer p2.node.Close()
+		p2.h = hist.NewOn(e.c, e.r.Fork(), hist.Config{PageSize: 512, AllowWAL: true, ForceWAL: true}, p2.node.Store, p2.node.Exits, "db", nil, 0, false)
+		for done, tries := 0, 0; done < 4 && tries < 300; tries++ {
+			st := p2.h.GenStep()
+			if st.Op != "rtx" && st.Op != "wtx" {
+				continue
+			}
+			if st.Op == "rtx" {
+				st.Outcome = 0
+			}
+			if ob := p2.h.Exec(st); ob.Err != "" || ob.Panic != "" {
+				return fmt.Errorf("wal primary: %s%s", ob.Err, ob.Panic)
+			} else if ob.Captured {
+				done++
+				note(p2)
+			}
+		}
+		if !p2.h.WALMode {
+			return fmt.Errorf("second primary did not reach WAL mode")
+		}
+		if fi, err := os.Stat(filepath.Join(p2.dir, "dbs", "db", "wal")); err != nil || fi.Size() == 0 {
+			c.Count("wal_restore_without_pending_frames", 1)
+		}
+		e.syncOnce(p2, cf, scen, "second primary (WAL mode, own history, frames not checkpointed) syncs", history)
+		if p2.pos() != e.svcPos() {
+			c.Violate("C14:"+kind+":wal-restore:not-adopted", fmt.Sprintf("a WAL-mode primary whose history is not the service's stays at %v; the service is at %v (exits %v)", p2.pos(), e.svcPos(), p2.node.Exits()), map[string]any{"kind": "backup-wal-restore"})
+			return nil
+		}
+		if fi, err := os.Stat(filepath.Join(p2.dir, "dbs", "db", "wal")); err == nil && fi.Size() > 0 {
+			c.Violate("C14:"+kind+":wal-restore:wal-left", fmt.Sprintf("after the restore %d bytes of the old log are still there for SQLite to replay over the restored database", fi.Size()), map[string]any{"kind": "backup-wal-restore"})
+		}
+	case "ack-lag":
+		// the service confirms less than it holds (its high-water mark trails): what the primary publishes follows the
+		// confirmation, not what it sent
+		p1.fl.ackLag = 2
+		if err := commitNoting(p1, 3); err != nil {
+			return err
+		}
+		e.syncOnce(p1, cf, scen, "first sync (snapshot)", history)
+		if err := commitNoting(p1, 4); err != nil {
+			return err
+		}
+		e.syncOnce(p1, cf, scen, "incremental sync", history)
+		if err := commitNoting(p1, 1); err != nil {
+			return err
+		}
+		e.syncOnce(p1, cf, scen, "one more", history)
 	case "missing-file":
 		if err := commitNoting(p1, 3); err != nil {
 			return err
@@ -817,7 +893,7 @@ func emptyThenWrite(c *common.Ctx, r *common.Rand, kind string) error {
 func Run(c *common.Ctx) error {
 	cf := c.Cases("cases_c14", "Require Import LF.Model.Repl LF.Model.Backup.\nLocal Open Scope N_scope.", "bool * pos * list (N * N * N * N) * pos * N * list N", "mismatches_backup")
 	cf.Shard = 12
-	scens := []string{"behind", "drop", "partial-upload", "ahead", "fork-equal", "fork-lower", "missing-file", "retention", "replacement", "service-writes", "big-batch"}
+	scens := []string{"behind", "drop", "partial-upload", "ahead", "fork-equal", "fork-lower", "missing-file", "retention", "replacement", "service-writes", "ack-lag", "wal-restore", "big-batch"}
 	rounds := c.Pick(1, 4)
 	for round := 0; round < rounds; round++ {
 		for _, kind := range []string{"file", "lfsc"} {
